@@ -1,5 +1,8 @@
 #!/bin/bash
-# Re-run every stored seeded change against the current checks (lab: $MUTLAB, default /tmp/mutlab).
+# Re-run stored seeded changes against the current checks (lab: $MUTLAB, default /tmp/mutlab).
+#   tools/reseed_all.sh            all of /verif/seeded
+#   tools/reseed_all.sh C01 C02-3  only these
 export MUTLAB="${MUTLAB:-/tmp/mutlab}" SEED_ROOT=/verif/seeded SEED_SUFFIX="" SEED_FLAT=1
 python3 /verif/tools/mutlab.py setup >/dev/null
-for d in /verif/seeded/*/; do sid=$(basename "$d"); python3 /verif/tools/seedcheck.py "$sid" 2>&1 | cut -c1-260; done
+if [ $# -gt 0 ]; then list="$*"; else list=$(ls /verif/seeded); fi
+for sid in $list; do python3 /verif/tools/seedcheck.py "$sid" 2>&1 | cut -c1-260; done
